@@ -4,6 +4,7 @@ import numpy as np
 from .. import env  # noqa: F401
 from ..core import Phase, Result
 from .. import snapshot, spans
+from ..represent import Rep, tapes
 from ..util import attempt, same_value
 
 import fsic
@@ -42,7 +43,7 @@ def make(case):
     n = len(span)
     kind = case['kind']
     if kind == 'container':
-        obj = VectorContainer(span, strict=case.get('obj_strict', False))
+        obj = VectorContainer(span, strict=Rep(case.get('rep')).bool(bool(case.get('obj_strict', False))))
         obj.add_variable('X', np.arange(1.0, n + 1))
         obj.add_variable('N', list(range(10, 10 + n)), dtype=int)
         obj.add_variable('B', [i % 2 == 0 for i in range(n)] if n else True, dtype=bool)
@@ -65,7 +66,7 @@ def make(case):
 
         def _evaluate(self, t, **kwargs):
             self._X[t] = self._X[t - 1] * 0.5 + self._Y[t]
-    obj = M(span, strict=case.get('obj_strict', False), X=np.arange(1.0, n + 1), Y=np.arange(n) * 0.25)
+    obj = M(span, strict=Rep(case.get('rep')).bool(bool(case.get('obj_strict', False))), X=np.arange(1.0, n + 1), Y=np.arange(n) * 0.25)
     obj.add_variable('N', list(range(10, 10 + n)), dtype=int)
     obj.add_variable('B', True, dtype=bool)
     obj.add_variable('S', 'ab', dtype='<U2')
@@ -110,7 +111,7 @@ def check_case(case):
     if 'fill_value' in case:
         kw['fill_value'] = case['fill_value']
     if case.get('strict_arg') is not None:
-        kw['strict'] = case['strict_arg']
+        kw['strict'] = Rep((case.get('rep') or [])[1:]).bool(case['strict_arg'])     # np.bool_ / 0-1 flags are the same flags
     fills = dict(case.get('fills') or {})
     kw.update(fills)
     before = snapshot.snapshot(obj)
@@ -327,6 +328,7 @@ def strategy():
                                                'T': ['', 'text'], 'status': ['', 'S', '.'], 'iterations': [0, 5], 'Q': [1], 'x': [2]}[nm]))
         case['fills'] = fills
         case['strict_arg'] = draw(st.sampled_from([None, None, True, False]))
+        case['rep'] = draw(tapes(2))
         return case
     return cases()
 
